@@ -16,6 +16,7 @@ Lemma on_frame_begin_keeps (s : rstate) f :
   data D (fst (on_frame_begin D cd cf s f)) = data D s /\ cur D (fst (on_frame_begin D cd cf s f)) = cur D s.
 Proof.
   unfold on_frame_begin. destruct (fb_is_ctl _); [split; reflexivity|].
+  destruct (failed (cn D s)); [split; reflexivity|].
   destruct (on_message_frame_begin D cf _ _ _) as [[c1 m2] e]. split; reflexivity.
 Qed.
 
@@ -190,6 +191,7 @@ Lemma on_frame_begin_agree (s : rstate) f : st (cn D s) <> CLOSED ->
   agreeE (fun r : rstate * list event => snd r) (on_frame_begin D cd cf s f) (on_frame_begin D cd (fbd cf) s f).
 Proof.
   intros H. unfold on_frame_begin. cbn [pmc utf8validate fbd]. destruct (fb_is_ctl _); [left; split; reflexivity|].
+  destruct (failed (cn D s)); [left; split; reflexivity|].
   match goal with |- context [on_message_frame_begin D cf ?c ?m ?l] => pose proof (omfb_agree c m l H) as A end.
   destruct A as [[A1 A2]|[pre [k [t [t' [P [A1 A2]]]]]]].
   - rewrite <- A2. destruct (on_message_frame_begin D cf _ _ _) as [[c1 m2] e]. left. split; [exact A1|reflexivity].
